@@ -66,13 +66,14 @@ type Term struct {
 type termCtx struct {
 	keyBuf []byte
 	bvc    map[[2]uint64]*Term
+	exact  map[int]*Term // BV term id -> Int term it equals exactly (signed, known in range)
 	tab    map[string]*Term
 	nextID int
 	tt, ff *Term
 }
 
 func newTermCtx() *termCtx {
-	c := &termCtx{tab: make(map[string]*Term), bvc: make(map[[2]uint64]*Term)}
+	c := &termCtx{tab: make(map[string]*Term), bvc: make(map[[2]uint64]*Term), exact: make(map[int]*Term)}
 	c.tt = c.intern(&Term{op: "const", sort: boolSort, cv: 1, konst: true})
 	c.ff = c.intern(&Term{op: "const", sort: boolSort, cv: 0, konst: true})
 	return c
@@ -301,6 +302,13 @@ func (c *termCtx) Eq(a, b *Term) *Term {
 	if a.sort != b.sort {
 		panic(fmt.Sprintf("eq sort mismatch %v %v", a.sort, b.sort))
 	}
+	if a.sort.k == sBV && !(a.konst && b.konst) {
+		if ia, ok := c.asExactInt(a); ok && !a.konst || ok && !b.konst {
+			if ib, ok := c.asExactInt(b); ok {
+				return c.Eq(ia, ib)
+			}
+		}
+	}
 	if a.konst && b.konst {
 		if a.iv != nil {
 			return c.Bool(a.iv.Cmp(b.iv) == 0)
@@ -451,11 +459,36 @@ func (c *termCtx) BVBin(op string, a, b *Term) *Term {
 }
 
 // BV comparison: op in bvult bvule bvugt bvuge bvslt bvsle bvsgt bvsge.
+// asExactInt returns the Int term a BV term equals (signed reading), when known.
+func (c *termCtx) asExactInt(a *Term) (*Term, bool) {
+	if a.konst {
+		return c.IntI(signExt(a.cv, a.sort.w)), true
+	}
+	t, ok := c.exact[a.id]
+	return t, ok
+}
+
 func (c *termCtx) BVCmp(op string, a, b *Term) *Term {
 	if a.sort != b.sort || a.sort.k != sBV {
 		panic(fmt.Sprintf("bvcmp %s sort mismatch %v %v", op, a.sort, b.sort))
 	}
 	w := a.sort.w
+	if !(a.konst && b.konst) && len(op) == 5 && op[2] == 's' {
+		if ia, ok := c.asExactInt(a); ok {
+			if ib, ok := c.asExactInt(b); ok {
+				switch op {
+				case "bvslt":
+					return c.IntCmp("<", ia, ib)
+				case "bvsle":
+					return c.IntCmp("<=", ia, ib)
+				case "bvsgt":
+					return c.IntCmp(">", ia, ib)
+				case "bvsge":
+					return c.IntCmp(">=", ia, ib)
+				}
+			}
+		}
+	}
 	if a.konst && b.konst {
 		x, y := a.cv, b.cv
 		sx, sy := signExt(x, w), signExt(y, w)
@@ -660,6 +693,11 @@ func (c *termCtx) IntNeg(a *Term) *Term {
 // BV2Int: signed or unsigned interpretation of a BV as Int.
 func (c *termCtx) BV2Int(a *Term, signed bool) *Term {
 	w := a.sort.w
+	if signed && !a.konst {
+		if t, ok := c.exact[a.id]; ok {
+			return t
+		}
+	}
 	if a.konst {
 		if signed {
 			return c.IntI(signExt(a.cv, w))
@@ -796,4 +834,15 @@ func (c *termCtx) rebuild(t *Term, args []*Term) *Term {
 		return c.Int2BV(args[0], t.sort.w)
 	}
 	return nil
+}
+
+// Int2BVExact is Int2BV for an Int term known (by the caller's preceding range
+// check on this path) to fit the signed w-bit range; comparisons between such
+// terms are decided in the Int theory.
+func (c *termCtx) Int2BVExact(a *Term, w int) *Term {
+	t := c.Int2BV(a, w)
+	if !t.konst {
+		c.exact[t.id] = a
+	}
+	return t
 }
